@@ -16,6 +16,7 @@ import (
 	logarith "github.com/pbenner/autodiff/logarithmetic"
 	"github.com/pbenner/autodiff/special"
 	"github.com/pbenner/autodiff/statistics"
+	"github.com/pbenner/autodiff/statistics/matrixDistribution"
 	"github.com/pbenner/autodiff/statistics/scalarDistribution"
 	"github.com/pbenner/autodiff/statistics/vectorDistribution"
 )
@@ -796,12 +797,17 @@ func doVDist(req request) map[string]interface{} {
 	}
 	var vd statistics.VectorPdf
 	var sd statistics.ScalarPdf
+	var md statistics.MatrixPdf
 	var err error
 	switch {
 	case family == "vnormal":
 		vd, err = vectorDistribution.NewNormalDistribution(vec(p[:n]), mat(p[n:], n))
 	case family == "vt":
 		vd, err = vectorDistribution.NewTDistribution(NewScalar(t, p[0]), vec(p[1:1+n]), mat(p[1+n:], n))
+	case family == "vskew":
+		vd, err = vectorDistribution.NewSkewNormalDistribution(vec(p[:n]), mat(p[n:n+n*n], n), vec(p[n+n*n:2*n+n*n]), vec(p[2*n+n*n:]))
+	case family == "miw":
+		md, err = matrixDistribution.NewInverseWishartDistribution(NewScalar(t, p[0]), mat(p[1:], n))
 	case strings.HasPrefix(family, "iid:"):
 		var d statistics.ScalarPdf
 		if d, err = construct(family[4:], ptype, p); err == nil {
@@ -828,12 +834,16 @@ func doVDist(req request) map[string]interface{} {
 	case "clone":
 		if vd != nil {
 			vd = vd.CloneVectorPdf()
+		} else if md != nil {
+			md = md.CloneMatrixPdf()
 		} else {
 			sd = sd.CloneScalarPdf()
 		}
 	case "setget":
 		if vd != nil {
 			err = vd.SetParameters(vd.GetParameters())
+		} else if md != nil {
+			err = md.SetParameters(md.GetParameters())
 		} else {
 			err = sd.SetParameters(sd.GetParameters())
 		}
@@ -847,6 +857,9 @@ func doVDist(req request) map[string]interface{} {
 	if sd != nil {
 		dim = 1
 	}
+	if md != nil {
+		dim = n * n
+	}
 	out := make([]float64, 0, len(xs)/dim)
 	errs := ""
 	for i := 0; i+dim <= len(xs); i += dim {
@@ -857,6 +870,8 @@ func doVDist(req request) map[string]interface{} {
 		var err error
 		if vd != nil {
 			err = vd.LogPdf(r, NewDenseFloat64Vector(xs[i:i+dim]))
+		} else if md != nil {
+			err = md.LogPdf(r, NewDenseFloat64Matrix(xs[i:i+dim], n, n))
 		} else {
 			err = sd.LogPdf(r, ConstFloat64(xs[i]))
 		}
